@@ -153,6 +153,7 @@ func (sg *segmentTimelineGenerator) modifySegmentTemplate(as *mpd.AdaptationSetT
 	stl := mpd.SegmentTimelineType{}
 	st.SegmentTimeline = &stl
 	var s *mpd.S
+	nextT := uint64(0) // Implicit start time of the next segment
 	for seqNr := firstNr; seqNr <= lastNr; seqNr++ {
 		sd, ok := sdb.getItem(seqNr)
 		if !ok {
@@ -164,8 +165,21 @@ func (sg *segmentTimelineGenerator) modifySegmentTemplate(as *mpd.AdaptationSetT
 				D: uint64(sd.dur),
 				R: 0,
 			}
+			nextT = uint64(sd.dts) + uint64(sd.dur)
 			continue
 		}
+		if uint64(sd.dts) != nextT {
+			// Discontinuity: the implicit time would be wrong, so start a new S with explicit time
+			stl.S = append(stl.S, s)
+			s = &mpd.S{
+				T: mpd.Ptr(uint64(sd.dts)),
+				D: uint64(sd.dur),
+				R: 0,
+			}
+			nextT = uint64(sd.dts) + uint64(sd.dur)
+			continue
+		}
+		nextT += uint64(sd.dur)
 		if uint64(sd.dur) == s.D {
 			s.R++
 			continue
